@@ -159,3 +159,101 @@ Proof.
   intros k stack ks. induction ks as [|x t IH]; intros s; [now left|].
   rewrite !follows_cons. apply bind1_sim; [apply Hsim | intros s1 _; apply IH | intros s1 _; apply follows_grows].
 Qed.
+
+(* the tails of `run` after each group of requests *)
+Definition T4 (e : list key -> state -> key -> outcome) k stack r slots1 : state -> list (option value) -> outcome :=
+  fun s4 slots3 => follows e k stack (r_disc (rules k))
+    (complete order (emit s4 (EAvail k)) k (rules k) r (branch_keys (rules k) slots1)
+              (task_value rules env F k (rules k) slots1 slots3)).
+Definition T3 (e : list key -> state -> key -> outcome) k stack r slots1 (slots2 : list (option value)) : state -> outcome :=
+  fun s3 => bind2 (requests e k stack (branch_keys (rules k) slots1) (length slots1 + length slots2)%nat s3 [])
+                  (T4 e k stack r slots1).
+Definition T2 (e : list key -> state -> key -> outcome) k stack r slots1 : state -> list (option value) -> outcome :=
+  fun s2 slots2 => bind1 (follows e k stack (r_follow (rules k)) s2) (T3 e k stack r slots1 slots2).
+Definition T1 (e : list key -> state -> key -> outcome) k stack r : state -> list (option value) -> outcome :=
+  fun s1 slots1 => bind2 (requests e k stack (r_single (rules k)) (length slots1) s1 []) (T2 e k stack r slots1).
+
+Lemma run_T : forall e k stack r s,
+  run rules env F order e k stack r s = bind2 (requests e k stack (r_req (rules k)) 0%nat (run_pre rules k r s) []) (T1 e k stack r).
+Proof. intros. rewrite run_bind. reflexivity. Qed.
+
+Lemma T4_grows : forall k stack r slots1 s4 slots3, grows s4 (T4 ens k stack r slots1 s4 slots3).
+Proof.
+  intros. unfold T4. eapply grows_trans; [|apply follows_grows].
+  eapply ext_trans; [apply ext_emit | apply complete_ext].
+Qed.
+
+Lemma T3_grows : forall k stack r slots1 slots2 s3, grows s3 (T3 ens k stack r slots1 slots2 s3).
+Proof. intros. unfold T3. apply grows_bind2; [apply requests_grows | intros; apply T4_grows]. Qed.
+
+Lemma T2_grows : forall k stack r slots1 s2 slots2, grows s2 (T2 ens k stack r slots1 s2 slots2).
+Proof. intros. unfold T2. apply grows_bind1; [apply follows_grows | intros; apply T3_grows]. Qed.
+
+Lemma T1_grows : forall k stack r s1 slots1, grows s1 (T1 ens k stack r s1 slots1).
+Proof. intros. unfold T1. apply grows_bind2; [apply requests_grows | intros; apply T2_grows]. Qed.
+
+Lemma T4_sim : forall k stack r slots1 s4 slots3, simo (T4 ensc k stack r slots1 s4 slots3) (T4 ens k stack r slots1 s4 slots3).
+Proof. intros. unfold T4. apply follows_sim. Qed.
+
+Lemma T3_sim : forall k stack r slots1 slots2 s3, simo (T3 ensc k stack r slots1 slots2 s3) (T3 ens k stack r slots1 slots2 s3).
+Proof.
+  intros. unfold T3. apply bind2_sim; [apply requests_sim | intros; apply T4_sim | intros; apply T4_grows].
+Qed.
+
+Lemma T2_sim : forall k stack r slots1 s2 slots2, simo (T2 ensc k stack r slots1 s2 slots2) (T2 ens k stack r slots1 s2 slots2).
+Proof.
+  intros. unfold T2. apply bind1_sim; [apply follows_sim | intros; apply T3_sim | intros; apply T3_grows].
+Qed.
+
+Lemma T1_sim : forall k stack r s1 slots1, simo (T1 ensc k stack r s1 slots1) (T1 ens k stack r s1 slots1).
+Proof.
+  intros. unfold T1. apply bind2_sim; [apply requests_sim | intros; apply T2_sim | intros; apply T2_grows].
+Qed.
+
+Lemma run_sim : forall k stack r s,
+  simo (run rules env F order ensc k stack r s) (run rules env F order ens k stack r s).
+Proof.
+  intros. rewrite !run_T. apply bind2_sim; [apply requests_sim | intros; apply T1_sim | intros; apply T1_grows].
+Qed.
+
+Lemma scan_sim : forall k stack r ds s, ~ In k stack ->
+  simo (scan rules env F order ensc k stack r ds s) (scan rules env F order ens k stack r ds s).
+Proof.
+  intros k stack r ds. induction ds as [|d t IH]; intros s Hk; [now left|].
+  rewrite !scan_cons. apply bind1_sim; [apply Hsim | |].
+  - intros s1 _. destruct (negb (d_order d) && (res_builtAt r <? res_computedAt (get (st_mem s1) (d_key d)))).
+    + apply run_sim.
+    + apply IH. exact Hk.
+  - intros s1 _. destruct (negb (d_order d) && (res_builtAt r <? res_computedAt (get (st_mem s1) (d_key d)))).
+    + eapply grows_trans; [apply ext_emit|]. eapply inv_grows. apply run_inv; [exact Hinv | exact Hk].
+    + eapply inv_grows. apply scan_inv; [exact Hinv | exact Hk].
+Qed.
+
+Lemma ensure_body_sim : forall stack s k,
+  simo (ensure_body rules env F order ensc stack s k) (ensure_body rules env F order ens stack s k).
+Proof.
+  intros stack s k. unfold ensure_body.
+  destruct (existsb (N.eqb k) stack) eqn:Est; [now left|].
+  pose proof (existsb_eqb_false _ _ Est) as Hk.
+  destruct (N.eqb (res_builtAt (get (st_mem s) k)) (st_epoch s)); [now left|].
+  cbn [res_builtAt res_sig]. set (r := mkRes _ _ _ _ _).
+  destruct (N.eqb (res_builtAt (get (st_mem s) k)) 0); [apply run_sim|].
+  destruct (flagged (set_mem s k r) k); [apply run_sim|].
+  destruct (negb (N.eqb (r_sig (rules k)) (res_sig (get (st_mem s) k)))); [apply run_sim|].
+  destruct (negb (valid rules env k r)); [apply run_sim|].
+  apply scan_sim. exact Hk.
+Qed.
+
+End SimStep.
+
+Theorem ensure_c_sim : forall fuel stack s k,
+  simo (ensure_c rules env F order n base fuel stack s k) (ensure rules env F order fuel stack s k).
+Proof.
+  induction fuel as [|f IH]; intros stack s k; cbn [ensure_c ensure]; [now left|].
+  destruct (budget_reached n base s) eqn:Eb.
+  - right. exists s. split; [reflexivity|]. split; [exact Eb|].
+    eapply inv_grows. apply ensure_body_inv. apply ensure_inv.
+  - apply ensure_body_sim; [exact IH | apply ensure_inv].
+Qed.
+
+End Sim.
